@@ -199,7 +199,12 @@ def gen_c15_case(r, allow_eigen=True):
     if r.random() < 0.3:
         ops.append("epoch %d" % r.choice([5, 100, U32 - 3, r.randrange(U32)]))
         feat.add("epoch-set")
-    if r.random() < 0.3:
+    clip = "clip" in feat
+    # With clipping on, the norm is summed in the iteration order of the world's own
+    # unordered_set; the interrupted run lives in a second world (other addresses, other
+    # order), so any earlier clipped update would already make the two worlds differ by
+    # rounding before the run starts: such cases get exactly one run and no earlier history.
+    if not clip and r.random() < 0.3:
         # some history before the run, and statistics of another optimizer in the file
         i = r.randrange(np_)
         ops.append("stat %d X.custom %s" % (i, rvec(r, sizes[i], 1.0)))
@@ -207,20 +212,36 @@ def gen_c15_case(r, allow_eigen=True):
             ops.append("grad %d %s" % (j, rvec(r, sizes[j], 1.0)))
         ops.append("upd")
         feat.add("history-before")
-    nrun = r.choice([1, 1, 2])
-    mode = "0"
-    for _ in range(nrun):
-        k, n = r.choice([0, 1, 2, 3, 5]), r.choice([0, 1, 2, 3, 4])
-        mode = r.choice(["0", "1", "1", "2"] if allow_eigen else ["0", "1"])
-        order = r.choice(["0", "0", "1"])
-        ops.append("run %d %d %s %s" % (k, n, mode, order))
-        feat.add("mode%s" % mode)
-        feat.add("order%s" % order)
-    if r.random() < 0.6:
-        mode = r.choice(["0", "1", "2"] if allow_eigen else ["0", "1"])
-        ops.append("rung %d %d %s" % (r.choice([1, 2, 3]), r.choice([1, 2, 3]), mode))
-        feat.add("graph-oracle")
-        feat.add("gmode%s" % mode)
+    elif r.random() < 0.3:
+        i = r.randrange(np_)
+        ops.append("stat %d X.custom %s" % (i, rvec(r, sizes[i], 1.0)))
+        feat.add("foreign-statistics")
+    modes = ["0", "1", "1", "2"] if allow_eigen else ["0", "1"]
+    if clip:
+        k, n = r.choice([0, 1, 2, 3]), r.choice([0, 1, 2, 3])
+        mode = r.choice(modes)
+        if r.random() < 0.6:
+            order = r.choice(["0", "0", "1"])
+            ops.append("run %d %d %s %s" % (k, n, mode, order))
+            feat.add("mode%s" % mode)
+            feat.add("order%s" % order)
+        else:
+            ops.append("rung %d %d %s" % (r.choice([1, 2]), r.choice([1, 2]), mode))
+            feat.add("graph-oracle")
+            feat.add("gmode%s" % mode)
+    else:
+        for _ in range(r.choice([1, 1, 2])):
+            k, n = r.choice([0, 1, 2, 3, 5]), r.choice([0, 1, 2, 3, 4])
+            mode = r.choice(modes)
+            order = r.choice(["0", "0", "1"])
+            ops.append("run %d %d %s %s" % (k, n, mode, order))
+            feat.add("mode%s" % mode)
+            feat.add("order%s" % order)
+        if r.random() < 0.6:
+            mode = r.choice(modes)
+            ops.append("rung %d %d %s" % (r.choice([1, 2, 3]), r.choice([1, 2, 3]), mode))
+            feat.add("graph-oracle")
+            feat.add("gmode%s" % mode)
     return " ; ".join(ops), kind, feat, len(reg)
 
 
